@@ -704,8 +704,8 @@ func init() {
 	register(&Check{
 		ID:    "C05",
 		Level: "fault_enumeration",
-		Rule: "realtime: all byte strings <= 2 (thorough 3) bytes and all strings <= 4 (thorough 5) over a 20-byte wire alphabet in 4 framings (raw, after a valid header, inside an entity, inside a trip update) x 3 extension configurations; semantically malformed messages within k deviations (quick 2, thorough 3) x all 29 extension configurations; every truncation and every single-byte substitution (15 values) of 7 valid seed messages x 3 configurations; accessor sweep (getters, hashes, journals over 10 histories x 3 windows, CSV export) on every accepted result. " +
-			"static: structural faults per table (k <= 2 tables at once), the product of colliding stop ids x parent_station values over 0..3 rows (cycles, duplicates, blank and dangling ids), every column of every file x 29 nasty values (4-field and empty-field times, non-ASCII digits, huge / special numbers, impossible dates, control characters, a 400-digit number) x 3 row placements, all CSV bodies <= 4 (thorough 6) over an 8-character alphabet appended to each of the 10 files, every truncation and single-byte substitution of 2 (thorough 6) seed archives; accessor sweep (acyclicity, Root(), pointer walk). " +
+		Rule: "realtime: all byte strings <= 2 (thorough 3) bytes and all strings <= 4 (thorough 5) over a 20-byte wire alphabet in 4 framings (raw, after a valid header, inside an entity, inside a trip update) x 3 extension configurations; semantically malformed messages within k deviations (quick 2, thorough 3) x all 38 extension configurations; every truncation and every single-byte substitution (15 values) of 7 valid seed messages x 3 configurations; accessor sweep (getters, hashes, journals over 10 histories x 3 windows, CSV export) on every accepted result. " +
+			"static: structural faults per table (k <= 2 tables at once), the product of colliding stop ids x parent_station values over 0..3 rows (cycles, duplicates, blank and dangling ids), three stops x parent {none, previous, next, dangling} x location type {blank, 1, 2, 4} with and without the inheritance option, every column of every file x 29 nasty values (4-field and empty-field times, non-ASCII digits, huge / special numbers, impossible dates, control characters, a 400-digit number) x 3 row placements, all CSV bodies <= 4 (thorough 6) over an 8-character alphabet appended to each of the 10 files, every truncation and single-byte substitution of 2 (thorough 6) seed archives; accessor sweep (acyclicity, Root(), pointer walk). " +
 			"non-trivial = distinct inputs other than the empty string; oracle = no panic, no worker death, no 60 s stall",
 		Assumptions: []string{"resource use proportional to the decompressed input is out of scope", "a nil *ParseRealtimeOptions is API misuse, not an input", "panic signatures normalise numbers so that one defect is one finding"},
 		Scenarios: func(tier string) []*Scenario {
@@ -730,6 +730,17 @@ func init() {
 						c.Witness("accepted")
 					}
 					c.SetMapMode(mapFixed)
+				}},
+				{Name: "static/typed-stop-hierarchies", Bound: -1, Run: func(c *Ctx) {
+					// three stops x parent {none, previous, next, dangling} x location type {blank, station, entrance,
+					// boarding area}: typed stops whose parent is missing, dangling or cut out of a cycle
+					m, desc := c03TypedStopsModel(c)
+					b := renderFeed(m, presentation{})
+					inherit := c.Free("inherit", 2)
+					c.Input(hash64(string(b)+fmt.Sprint(inherit)), true, func() string { return fmt.Sprintf("inherit=%d %s", inherit, desc) })
+					if c05ParseStatic(c, b, inherit) {
+						c.Witness("accepted")
+					}
 				}},
 				{Name: "static/nasty-cells", Bound: -1, Run: c05NastyCells},
 				{Name: fmt.Sprintf("static/csv-bodies<=%d", cl), Bound: -1, Run: c05CsvBodies(cl)},
